@@ -358,6 +358,12 @@ func (e *Element) Encode() []byte {
 
 // EncodeUncompressed returns the uncompressed byte encoding of the element.
 func (e *Element) EncodeUncompressed() []byte {
+	// SEC1 encodes the point at infinity as the single byte 0x00 in every form. 04||0||1 is not a point of the curve,
+	// and Decode rejects it.
+	if e.IsIdentity() {
+		return []byte{encodingPrefixIdentity}
+	}
+
 	var out [elementLengthUncompressed]byte
 	return e.fillUncompressed(&out)
 }
